@@ -116,6 +116,10 @@ KEYS = {
     "F1": b"\x1bOP", "F2": b"\x1bOQ", "F3": b"\x1bOR", "F4": b"\x1bOS", "F5": b"\x1b[15~",
     "Tab": b"\t", "Up": b"\x1b[A", "Down": b"\x1b[B", "Right": b"\x1b[C", "Left": b"\x1b[D",
     "Enter": b"\r", "Esc": b"\x1b", "Backspace": b"\x7f", "CtrlC": b"\x03",
+    "F6": b"\x1b[17~", "F7": b"\x1b[18~", "F8": b"\x1b[19~", "F9": b"\x1b[20~", "F10": b"\x1b[21~", "F11": b"\x1b[23~", "F12": b"\x1b[24~",
+    "Home": b"\x1b[H", "End": b"\x1b[F", "PageUp": b"\x1b[5~", "PageDown": b"\x1b[6~", "Insert": b"\x1b[2~", "Delete": b"\x1b[3~",
+    "BackTab": b"\x1b[Z", "CtrlA": b"\x01", "CtrlL": b"\x0c", "CtrlZ_": b"\x1a", "AltX": b"\x1bx", "ShiftUp": b"\x1b[1;2A", "CtrlRight": b"\x1b[1;5C",
+    "Nul": b"\x00", "Utf8": "é".encode(), "Wide": "日".encode(),
 }
 
 
